@@ -1,0 +1,127 @@
+//go:build verif
+
+package csptp
+
+// Contracts and ghost harnesses for the verification machinery in /verif (compiled only with the tag "verif").
+
+import "time"
+
+//@ func TimestampFromTime
+//@   panics when t.Unix() < 0 || t.Unix() > 281474976710655
+//@   ensures seconds: mathint(result.Seconds[0])*1099511627776+mathint(result.Seconds[1])*4294967296+mathint(result.Seconds[2])*16777216+mathint(result.Seconds[3])*65536+mathint(result.Seconds[4])*256+mathint(result.Seconds[5]) == mathint(t.Unix())
+//@   ensures nanos: mathint(result.Nanoseconds) == mathint(t.Nanosecond())
+
+//@ func TimeFromTimestamp
+//@   ensures seconds: t.Nanoseconds < 1000000000 ==> mathint(result.Unix()) == mathint(t.Seconds[0])*1099511627776+mathint(t.Seconds[1])*4294967296+mathint(t.Seconds[2])*16777216+mathint(t.Seconds[3])*65536+mathint(t.Seconds[4])*256+mathint(t.Seconds[5])
+//@   ensures nanos: t.Nanoseconds < 1000000000 ==> mathint(result.Nanosecond()) == mathint(t.Nanoseconds)
+
+//@ func DurationFromTimeInterval
+//@   ensures shift: mathint(result) == floordiv(mathint(i), 65536)
+
+//@ lemma timestampRoundTrip(t time.Time)
+//@   requires 0 <= t.Unix() && t.Unix() <= 281474976710655
+//@   ensures TimeFromTimestamp(TimestampFromTime(t)).Equal(t)
+
+//@ lemma timestampRoundTripBack(ts Timestamp)
+//@   requires ts.Nanoseconds < 1000000000
+//@   ensures TimestampFromTime(TimeFromTimestamp(ts)) == ts
+
+// Exactness: a server clock theta ahead of the client, symmetric one-way delay d, processing time p,
+// correction fields c1 and c3 reported for the two directions (residence times included in the path).
+//@ lemma csptpExact(t0 time.Time, d time.Duration, p time.Duration, theta time.Duration, c1 time.Duration, c3 time.Duration)
+//@   requires 0 <= t0.Unix() && t0.Unix() <= 1099511627776
+//@   requires 0 <= d && d <= 1000000000000000 && 0 <= p && p <= 1000000000000000
+//@   requires 0 <= c1 && c1 <= 1000000000000000 && 0 <= c3 && c3 <= 1000000000000000
+//@   requires -1000000000000000000 <= theta && theta <= 1000000000000000000
+//@   ensures ClockOffset(t0, t0.Add(d+c1+theta), t0.Add(d+c1+p+theta), t0.Add(d+c1+p+d+c3), c1, c3) == theta
+//@   ensures MeanPathDelay(t0, t0.Add(d+c1+theta), t0.Add(d+c1+p+theta), t0.Add(d+c1+p+d+c3), c1, c3) == d
+//@   ensures C2SDelay(t0, t0.Add(d+c1+theta), c1, theta) == d
+//@   ensures S2CDelay(t0.Add(d+c1+p+theta), t0.Add(d+c1+p+d+c3), c3, theta) == d
+
+//@ func EncodeMessage
+//@   inline
+//@   requires msg != nil && len(b) >= 44
+//@   modifies b[:]
+//@ func DecodeMessage
+//@   inline
+//@   requires msg != nil
+//@   modifies *msg
+//@ func EncodeRequestTLV
+//@   inline
+//@   loop 0 invariant forall(k, 0, 14, b[k] == before(b[k]))
+//@   loop 1 invariant forall(k, 0, 14, b[k] == before(b[k]))
+//@   requires tlv != nil && len(b) >= 36 && (tlv.FlagField&1 == 1 ==> len(b) >= 54)
+//@   modifies b[:]
+//@ func DecodeRequestTLV
+//@   inline
+//@   requires tlv != nil
+//@   modifies *tlv
+//@ func EncodeResponseTLV
+//@   inline
+//@   requires tlv != nil && len(b) >= 36 && (tlv.FlagField&1 == 1 ==> len(b) >= 54)
+//@   modifies b[:]
+//@ func DecodeResponseTLV
+//@   inline
+//@   requires tlv != nil
+//@   modifies *tlv
+//@ func EncodedRequestTLVLength
+//@   inline
+//@   requires tlv != nil
+//@ func EncodedResponseTLVLength
+//@   inline
+//@   requires tlv != nil
+
+func verifMessageRoundTrip(m *Message) (q Message, err error) {
+	b := make([]byte, MinMessageLength)
+	EncodeMessage(b, m)
+	err = DecodeMessage(&q, b)
+	return
+}
+
+//@ func verifMessageRoundTrip
+//@   requires m != nil
+//@   ensures roundtrip: err == nil && q == *m
+
+func verifMessageReencode(b []byte) (ok bool, out []byte) {
+	var m Message
+	if DecodeMessage(&m, b) != nil {
+		return false, nil
+	}
+	o := make([]byte, MinMessageLength)
+	EncodeMessage(o, &m)
+	return true, o
+}
+
+//@ func verifMessageReencode
+//@   ensures reencode: len(b) >= 44 ==> ok && len(out) == 44 && forall(i, 0, 44, out[i] == b[i])
+//@   ensures short: len(b) < 44 ==> !ok
+
+func verifRequestTLVRoundTrip(t *RequestTLV) (q RequestTLV, n int, err error) {
+	n = EncodedRequestTLVLength(t)
+	b := make([]byte, n)
+	EncodeRequestTLV(b, t)
+	err = DecodeRequestTLV(&q, b)
+	return
+}
+
+//@ func verifRequestTLVRoundTrip
+//@   requires t != nil
+//@   ensures roundtrip: err == nil && q == *t
+//@   ensures length: (t.FlagField&1 == 1 ==> n == 54) && (t.FlagField&1 == 0 ==> n == 36)
+
+func verifResponseTLVRoundTrip(t *ResponseTLV) (q ResponseTLV, n int, err error) {
+	n = EncodedResponseTLVLength(t)
+	b := make([]byte, n)
+	EncodeResponseTLV(b, t)
+	err = DecodeResponseTLV(&q, b)
+	return
+}
+
+// Without the server-state flag the 18 state bytes are not on the wire and decode as zero.
+//@ func verifResponseTLVRoundTrip
+//@   requires t != nil
+//@   ensures roundtrip: err == nil && q.Type == t.Type && q.Length == t.Length && q.OrganizationID == t.OrganizationID && q.OrganizationSubType == t.OrganizationSubType && q.FlagField == t.FlagField && q.Error == t.Error && q.RequestIngressTimestamp == t.RequestIngressTimestamp && q.RequestCorrectionField == t.RequestCorrectionField && q.UTCOffset == t.UTCOffset
+//@   ensures state: (t.FlagField&1 == 1 ==> q.ServerStateDS == t.ServerStateDS) && (t.FlagField&1 == 0 ==> q.ServerStateDS == ServerStateDS{})
+//@   ensures length: (t.FlagField&1 == 1 ==> n == 54) && (t.FlagField&1 == 0 ==> n == 36)
+
+var _ time.Time
